@@ -20,17 +20,9 @@ type Disk struct {
 	uses int
 }
 
-func NewDisk() (*Disk, error) {
-	db, err := kv.NewInMemory(zap.NewNop(), basedb.Options{})
-	if err != nil {
-		return nil, err
-	}
-	return &Disk{db: db}, nil
-}
-
 // Recycle replaces the underlying badger after many namespaces (bounds memory in long runs).
 func (d *Disk) Recycle(after int) error {
-	if d.uses < after {
+	if d.db == nil || d.uses < after {
 		return nil
 	}
 	_ = d.db.Close()
@@ -44,6 +36,13 @@ func (d *Disk) Recycle(after int) error {
 
 // NewDB returns an empty database (a fresh namespace).
 func (d *Disk) NewDB() *NSDB {
+	if d.db == nil { // opened lazily: helper processes that bring their own database never pay for it
+		db, err := kv.NewInMemory(zap.NewNop(), basedb.Options{})
+		if err != nil {
+			panic("in-memory badger: " + err.Error())
+		}
+		d.db = db
+	}
 	n := atomic.AddUint64(&d.next, 1)
 	d.uses++
 	return &NSDB{inner: d.db, ns: []byte(fmt.Sprintf("~%08x~", n))}
@@ -63,7 +62,9 @@ func (d *NSDB) p(prefix []byte) []byte {
 	return b
 }
 
-func (d *NSDB) Get(prefix, key []byte) (basedb.Obj, bool, error) { return d.inner.Get(d.p(prefix), key) }
+func (d *NSDB) Get(prefix, key []byte) (basedb.Obj, bool, error) {
+	return d.inner.Get(d.p(prefix), key)
+}
 func (d *NSDB) GetMany(prefix []byte, keys [][]byte, it func(basedb.Obj) error) error {
 	return d.inner.GetMany(d.p(prefix), keys, it)
 }
@@ -74,12 +75,15 @@ func (d *NSDB) Set(prefix, key, value []byte) error { return d.inner.Set(d.p(pre
 func (d *NSDB) SetMany(prefix []byte, n int, next func(int) (basedb.Obj, error)) error {
 	return d.inner.SetMany(d.p(prefix), n, next)
 }
-func (d *NSDB) Delete(prefix, key []byte) error             { return d.inner.Delete(d.p(prefix), key) }
-func (d *NSDB) CountPrefix(prefix []byte) (int64, error)    { return d.inner.CountPrefix(d.p(prefix)) }
-func (d *NSDB) DeletePrefix(prefix []byte) (int, error)     { return d.inner.DeletePrefix(d.p(prefix)) }
-func (d *NSDB) DropPrefix(prefix []byte) error              { _, err := d.inner.DeletePrefix(d.p(prefix)); return err }
-func (d *NSDB) Begin() basedb.Txn                           { return &nsTxn{d: d, t: d.inner.Begin()} }
-func (d *NSDB) BeginRead() basedb.ReadTxn                   { return &nsTxn{d: d, r: d.inner.BeginRead()} }
+func (d *NSDB) Delete(prefix, key []byte) error          { return d.inner.Delete(d.p(prefix), key) }
+func (d *NSDB) CountPrefix(prefix []byte) (int64, error) { return d.inner.CountPrefix(d.p(prefix)) }
+func (d *NSDB) DeletePrefix(prefix []byte) (int, error)  { return d.inner.DeletePrefix(d.p(prefix)) }
+func (d *NSDB) DropPrefix(prefix []byte) error {
+	_, err := d.inner.DeletePrefix(d.p(prefix))
+	return err
+}
+func (d *NSDB) Begin() basedb.Txn         { return &nsTxn{d: d, t: d.inner.Begin()} }
+func (d *NSDB) BeginRead() basedb.ReadTxn { return &nsTxn{d: d, r: d.inner.BeginRead()} }
 func (d *NSDB) Update(fn func(basedb.Txn) error) error {
 	return d.inner.Update(func(t basedb.Txn) error { return fn(&nsTxn{d: d, t: t}) })
 }
@@ -112,7 +116,9 @@ func (t *nsTxn) rd() basedb.Reader {
 	}
 	return t.r
 }
-func (t *nsTxn) Get(prefix, key []byte) (basedb.Obj, bool, error) { return t.rd().Get(t.d.p(prefix), key) }
+func (t *nsTxn) Get(prefix, key []byte) (basedb.Obj, bool, error) {
+	return t.rd().Get(t.d.p(prefix), key)
+}
 func (t *nsTxn) GetMany(prefix []byte, keys [][]byte, it func(basedb.Obj) error) error {
 	return t.rd().GetMany(t.d.p(prefix), keys, it)
 }
